@@ -61,7 +61,7 @@ PROPS = {
                 quick_s=55, thorough_s=900, quick_max=200000, thorough_max=4000000,
                 rule="one run = either a complete handshake (+ data) in which the entropy source of one endpoint fails at its i-th draw "
                      "(this draw only, or this and all later ones) or returns up to 3 degenerate all-0x00/0xFF draws, or a single randomised API "
-                     "operation (26 operations: SM2 keygen/sign/encrypt/ECDH incl. reused contexts, PKCS#8, X.509 cert/req/CRL signing, CMS "
+                     "operation (27 operations: SM2 keygen/sign/encrypt/ECDH incl. reused contexts, PKCS#8, X.509 cert/req/CRL signing, CMS "
                      "sign/envelop, TLS record IV, Hello random, pre-master secret, ServerKeyExchange signature, SM9 keygen/sign/encrypt/exchange steps 1A and 1B, PKCS#8 PEM) "
                      "with every draw index failing in turn, stream pairs (same stream twice, two different streams) and histories of repeated "
                      "operations on one stream; the fault index is drawn from the draw count of the fault-free twin; non-trivial = the injected entropy "
@@ -346,7 +346,7 @@ def shrink(variant, plan_text, want, is_leak, budget_s=90, max_runs=160):
             i -= 1
     # 2. knob simplification
     simple = [("seg_style", "0"), ("max_lat_ns", "0"), ("short_write", "0"), ("eagain", "0"), ("capacity", "0"),
-              ("skew_c", "0"), ("skew_s", "0"), ("jump_node", "-1"), ("stay_num", "1"), ("stay_den", "1"),
+              ("skew_c", "0"), ("skew_s", "0"), ("jump_node", "-1"), ("tz", "0"), ("extra_roots", "0"), ("stay_num", "1"), ("stay_den", "1"),
               ("mutual", "0"), ("depth", "1"), ("interpose", "0"), ("cred_mode", "0"), ("eburst_at", "-1"),
               ("efail_rest", "0"), ("op_count", "1"), ("ntasks", "2"), ("pct_d", "0")]
     for k, v in simple:
